@@ -10,7 +10,7 @@ from ..report import Ctx
 from ..util import LockSets, arg, callee_attr, calls_in_node, cfg_nodes_with_call
 from ..wire import ReaderTranslator, canon_reader
 from ._chan import GB, WRITELOCK
-from .C10 import check_terminal_frame
+from .C10 import check_registration_only_open, check_terminal_frame
 from .C12 import reader_terms, writer_terms
 
 
@@ -57,6 +57,12 @@ def check(ctx: Ctx) -> None:
         ob.site(fn, incs[0], "allocation step", step=step)
         if not (isinstance(incs[0].op, ast.Add) and step == 2):
             ob.violation(fn, incs[0], f"the id counter advances by {step!r} instead of 2: ids of the two sides collide")
+        # inside new(): the counter only ever advances by the step (parity is invariant)
+        for n in repo.own_nodes(fn):
+            if isinstance(n, ast.Assign) and any(unparse(t) == "self.count" for t in n.targets):
+                ob.violation(fn, n, f"the id counter is re-assigned (`{norm(n)}`) instead of only advancing by the step: its parity can flip and both sides then allocate the same ids")
+            if isinstance(n, ast.AugAssign) and unparse(n.target) == "self.count" and n is not incs[0]:
+                ob.violation(fn, n, "a second update of the id counter")
         # count is written nowhere else
         for f in repo.funcs.values():
             for n in repo.own_nodes(f):
@@ -145,4 +151,5 @@ def check(ctx: Ctx) -> None:
             ob.violation(frs, frs.node, "remote_status leaves its ad-hoc channel registered")
         ob.note("closed transitions reach _no_longer_opened on every path: decided by C03.b; __del__ notifies the peer: C03.f")
 
+    check_registration_only_open(ctx, "C18.f")
     check_terminal_frame(ctx, "C18.e")
